@@ -9,7 +9,9 @@ Routing, WSGI decoding and `jsonify` itself are Flask's (assumed; exercised by t
 from pyvc.dsl import *
 
 Any = Opaque("Any")
-Response = Opaque("Response")
+classdef("HttpAnswer", sealed=True, fields={})        # what a handler returns: a data response or a json document
+classdef("JsonResponse", bases=["HttpAnswer"], fields=dict(status=Str))      # what jsonify returns: a response object whose HTTP status a handler may set
+Response = Ref("JsonResponse")
 KeyList = ListOfSet(Str)
 Answer = Rec("WebAnswer", dict(query=Opt(Str), message=Str, status=Str, contains=Bool, is_dir=Bool, keys=KeyList, listdir=Opt(KeyList),
                                removed=Any, cached=Any))
@@ -30,7 +32,7 @@ def _():
     pass
 
 
-@assumed("flask.jsonify", params=dict(d=Answer), returns=Response)
+@assumed("flask.jsonify", params=dict(d=Answer), returns=Response, returns_fresh=True)
 def _(d):
     pass
 
